@@ -158,10 +158,15 @@ def _check_sample_case(rows1, rows2, conv, tol):
             lin = _lin(rows1, x, y)
             if a.ratio_var(x, y) != G.cov(lin, lin):
                 fails.append((f"ratio_var({x},{y}) != var of linearised", ""))
-        for q in [("x", "y", "z", "w"), ("x", None, "y", None), ("x", "y", "x", "y"), ("z", "x", None, "y")]:
+        import itertools
+        for q in itertools.product([None, "x", "y", "w"], repeat=4):   # every position of a missing name
             l1, l2 = _lin(rows1, q[0], q[1]), _lin(rows1, q[2], q[3])
             if a.ratio_cov(*q) != G.cov(l1, l2):
                 fails.append((f"ratio_cov{q} != cov of linearised", ""))
+        for q in itertools.product([None, "x", "z"], repeat=2):
+            lin = _lin(rows1, q[0], q[1])
+            if a.ratio_var(*q) != G.cov(lin, lin):
+                fails.append((f"ratio_var{q} != var of linearised", ""))
         if a.ratio_var("x", None) != a.var_["x"]:
             fails.append(("ratio_var(x,None) != var(x)", ""))
         if a.ratio_cov("x", None, "y", None) != a.cov_[("x", "y")]:
